@@ -105,7 +105,7 @@ func init() {
 	addMutant(Mutant{Name: "c25-unsorted-modules", Property: "C25", File: "ygen/codegen.go",
 		Old: "\tsort.Strings(modNames)\n", New: "\tsort.Strings(nil)\n", Expect: "processModules"})
 	addMutant(Mutant{Name: "c25-fields-in-map-order", Property: "C25", File: "gogen/codegen.go",
-		Old: "\t\tfor _, fn := range dir.OrderedFieldNames() {\n\t\t\tfield := dir.Fields[fn]\n", New: "\t\tfor _, field := range dir.Fields {\n", Expect: "range(dir.Fields)"})
+		Old: "\t\tfor _, fn := range dir.OrderedFieldNames() {\n\t\t\tfield := dir.Fields[fn]\n", New: "\t\tfor _, field := range dir.Fields {\n", Expect: "Fields)"})
 	addMutant(Mutant{Name: "c25-dirs-in-map-order", Property: "C25", File: "ygen/genstate.go",
 		Old: "\tfor _, entryKey := range genutil.GetOrderedEntryKeys(entries) {\n\t\te := entries[entryKey]\n", New: "\tfor _, e := range entries {\n", Expect: "range(entries)"})
 	addMutant(Mutant{Name: "c25-header-imports-unsorted", Property: "C25", File: "protogen/protogen.go",
@@ -305,4 +305,12 @@ func init() {
 		New: "\t_, err := pk.p.StripPrefix(pfx)\n\tif err != nil {\n\t\treturn err\n\t}\n\n\tppath, err := pk.p.ToProto()", Expect: "addToNotification:Update.Path"})
 	addMutant(Mutant{Name: "c02-prefix-not-published", Property: "C02", File: "ygot/render.go",
 		Old: "\tp, err := pfx.ToProto()\n\tif err != nil {\n\t\treturn nil, err\n\t}\n\tn.Prefix = p", New: "\tp, err := newPathElemGNMIPath(nil).ToProto()\n\tif err != nil {\n\t\treturn nil, err\n\t}\n\tn.Prefix = p", Expect: "leavesToNotifications:Prefix"})
+}
+
+func init() {
+	// R-MERGE-UNSET (C05)
+	addMutant(Mutant{Name: "c05-by-value-overwrites", Property: "C05", File: "ygot/struct_validation_map.go",
+		Old: "\t\t\tif !srcField.IsZero() {\n\t\t\t\tdstField.Set(srcField)\n\t\t\t}", New: "\t\t\tif !srcField.IsZero() || fieldOverwriteEnabled(opts) {\n\t\t\t\tdstField.Set(srcField)\n\t\t\t}", Expect: "copyStruct:by-value-write"})
+	addMutant(Mutant{Name: "c05-map-replaced", Property: "C05", File: "ygot/struct_validation_map.go",
+		Old: "\tif dstField.Len() == 0 {\n\t\tdstField.Set(reflect.MakeMapWithSize(reflect.MapOf(m.key, m.value), srcField.Len()))\n\t}", New: "\tif dstField.Len() == 0 || fieldOverwriteEnabled(opts) {\n\t\tdstField.Set(reflect.MakeMapWithSize(reflect.MapOf(m.key, m.value), srcField.Len()))\n\t}", Expect: "copyMapField:whole-field-write"})
 }
